@@ -470,6 +470,9 @@ func runC14(c *Ctx) {
 	fn := r.Fn
 	info := r.FI.Pkg.TypesInfo
 	aP := fn.Analyze(c.policyAssumption(r, true))
+	// Parallel changes scaling only: the update walk still moves on past a cell only when it is empty or
+	// holds a healthy pod at the update revision (one pod down at a time)
+	c.updateWalkContinue(r, aP, "C14.3-update-walk-one-at-a-time")
 	c.Check(r.FreshOK, "C14.0-fresh-pod-is-uncreated", r.Ctor.Name()+" result", r.Creates[0].Pos(),
 		"allocation summary: the constructor returns a new pod with empty phase and no deletion timestamp", "the constructor's result is not provably an uncreated pod")
 	// C14.1 only API errors end the pass inside the two loops
